@@ -191,8 +191,7 @@ def joinWith (sep : Str) : List Str → Str
   | [a] => a
   | a :: r => a ++ sep ++ joinWith sep r
 
-/-- `str.splitlines()` on `\n`, `\r\n`, `\r`, `\v`, `\f`, FS, GS, RS (NEL, LS, PS are outside the
-ASCII domain of the model). -/
+/-- `str.splitlines()` breaks on `\n`, `\r\n`, `\r`, `\v`, `\f`, FS, GS, RS, NEL (U+0085), LS (U+2028), PS (U+2029). -/
 def isLineBreak (c : Char) : Bool :=
   c == '\n' || c == '\r' || c.toNat == 11 || c.toNat == 12 || (28 ≤ c.toNat && c.toNat ≤ 30)
   || c.toNat == 0x85 || c.toNat == 0x2028 || c.toNat == 0x2029
